@@ -97,7 +97,43 @@ func runC18(k *eng.Check, tier string) {
 
 	// (4) closure construction
 	if fn := k.Fn(c18WriteFb); fn != nil {
-		c18CheckClosureBuilder(k, fn)
+		// the builder may have been split into single-caller phases (load the parents' closures / merge them): the
+		// construction rules run in the phase that opens the editor, the loading rules in the phase that makes the
+		// closures slice, and the top function must hand the phases' results on and return the merging phase's answer
+		host := fn
+		if len(eng.Calls(fn, c18mEditor, false)) == 0 {
+			for _, g := range c.FamilyOf(fn, datas, 1)[1:] {
+				if len(eng.Calls(g, c18mEditor, false)) == 1 {
+					host = g
+				}
+			}
+		}
+		if host != fn {
+			k.FuncsSeen[host] = true
+			var hc *ssa.Call
+			for _, ci := range eng.Calls(fn, func(q ssa.CallInstruction) bool { return q.Common().StaticCallee() == host }, false) {
+				hc, _ = ci.(*ssa.Call)
+			}
+			ok := hc != nil
+			if ok {
+				k.OnlyAfter("closure-wiring", fn, "the closure builder succeeds only after its merging phase "+eng.Name(host)+" returned nil", eng.SuccessExits(fn), 1, eng.UnionOf(eng.OkCut(hc), eng.CondEdgesP(fn, func(v ssa.Value) bool {
+					b, isCmp := eng.IsCompare(v, token.EQL)
+					return isCmp && eng.Mentions(b.X, func(x ssa.Value) bool {
+						call, isC := x.(*ssa.Call)
+						return isC && eng.CalleeName(call) == "builtin:len"
+					})
+				}, true)))
+				for in := range eng.SuccessExits(fn).I {
+					if ret, isRet := in.(*ssa.Return); isRet && len(ret.Results) > 0 && !eng.IsNilOrZero(ret.Results[0]) {
+						if !eng.ResultOf(eng.Unspill(ret, 0), hc, 0) {
+							ok = false
+						}
+					}
+				}
+			}
+			k.Require("closure-wiring", eng.Name(fn)+"#phase-result", "the address the builder answers is the merging phase's result", ok, c.Pos(fn.Pos()), "the merging phase's result is not what the builder returns")
+		}
+		c18CheckClosureBuilder(k, host)
 	}
 
 	// (5) closure key codec
@@ -604,9 +640,14 @@ func c18CheckClosureBuilder(k *eng.Check, fn *ssa.Function) {
 	if okEd {
 		k0, okK = c18uConstInt64(csIdx0)
 	}
-	cs, isMS := csBase.(*ssa.MakeSlice)
-	if !okEd || !okK || !isMS {
-		k.Unknown("closure-union", name+"#editor-base", "the closure the editor is opened on", "not a constant-index element of a locally made closures slice")
+	var cs ssa.Value
+	if ms, isMS := csBase.(*ssa.MakeSlice); isMS {
+		cs = ms
+	} else if p, isP := csBase.(*ssa.Parameter); isP {
+		cs = p // filled by a loading phase: checked by c18CheckClosureLoads through the call site
+	}
+	if !okEd || !okK || cs == nil {
+		k.Unknown("closure-union", name+"#editor-base", "the closure the editor is opened on", "not a constant-index element of a locally made closures slice (or of the slice a loading phase hands in)")
 		return
 	}
 
@@ -658,28 +699,50 @@ func c18CheckClosureBuilder(k *eng.Check, fn *ssa.Function) {
 	}
 
 	// (4b) closures[j] comes from parents[j]
-	c18CheckClosureLoads(k, fn, cs, parentsP)
+	if ms, isMS := cs.(*ssa.MakeSlice); isMS {
+		c18CheckClosureLoads(k, fn, ms, parentsP)
+	} else {
+		c18CheckClosureLoadsInPhase(k, fn, cs.(*ssa.Parameter), parentsP.(*ssa.Parameter))
+	}
 
 	// (4a') no loop over the parents is left early: a loop is exited through its own condition or towards an
 	// error return; an early exit that can still reach a success return skips the remaining parents
-	succ := eng.SuccessExits(fn)
-	loops := eng.Loops(fn)
-	if len(loops) < 3 {
-		k.Unknown("closure-loops-complete", name, "the loops over the parents / their closures", fmt.Sprintf("%d loops found (confirmed floor 3)", len(loops)))
-	}
-	for li, l := range loops {
-		var early []eng.Point
-		for _, e := range l.Exits {
-			if e.From != l.Header {
-				early = append(early, eng.Point{B: e.To(), I: 0})
+	// (when the builder is split into phases, the loops of every phase count and are checked)
+	loopFns := []*ssa.Function{fn}
+	if top := c.Func(c18WriteFb); top != nil && top != fn {
+		loopFns = nil
+		for _, g := range c.FamilyOf(top, c.Funcs("store/datas"), 1) {
+			if len(eng.Loops(g)) > 0 {
+				loopFns = append(loopFns, g)
 			}
 		}
-		what := fmt.Sprintf("loop %d: an exit other than the loop condition leads only to error returns", li)
-		if len(early) == 0 {
-			k.Pass("closure-loops-complete", name+"#"+what, what, 1)
-			continue
+	}
+	nLoopsAll := 0
+	for _, g := range loopFns {
+		nLoopsAll += len(eng.Loops(g))
+	}
+	if nLoopsAll < 3 {
+		k.Unknown("closure-loops-complete", name, "the loops over the parents / their closures", fmt.Sprintf("%d loops found (confirmed floor 3)", nLoopsAll))
+	}
+	for _, lf := range loopFns {
+		fn := lf
+		name := eng.Name(fn)
+		succ := eng.SuccessExits(fn)
+		loops := eng.Loops(fn)
+		for li, l := range loops {
+			var early []eng.Point
+			for _, e := range l.Exits {
+				if e.From != l.Header {
+					early = append(early, eng.Point{B: e.To(), I: 0})
+				}
+			}
+			what := fmt.Sprintf("loop %d: an exit other than the loop condition leads only to error returns", li)
+			if len(early) == 0 {
+				k.Pass("closure-loops-complete", name+"#"+what, what, 1)
+				continue
+			}
+			k.OnlyAfter("closure-loops-complete", fn, what, succ, 1, eng.NewSet(), early...)
 		}
-		k.OnlyAfter("closure-loops-complete", fn, what, succ, 1, eng.NewSet(), early...)
 	}
 
 	// (4c) every other closure is merged in
@@ -707,11 +770,11 @@ func c18CheckClosureBuilder(k *eng.Check, fn *ssa.Function) {
 		if ok1 {
 			fk, okFK = c18uConstInt64(fi)
 		}
-		okFrom := ok1 && okFK && fb == ssa.Value(cs) && fk == k0
+		okFrom := ok1 && okFK && fb == cs && fk == k0
 		k.Require("closure-union", name+"#diff-from", "the diff's base is the closure the editor was opened on", okFrom, pos, "DiffCommitClosures' first closure is not the element the editor edits: keys reported as added are not the ones missing from the edited map")
 		okTo := false
 		whyTo := "the second closure is not an element of the closures slice at a loop index"
-		if ok2 && tb == ssa.Value(cs) {
+		if ok2 && tb == cs {
 			start, _, header, okR := c18uIndexRange(ti)
 			switch {
 			case !okR:
@@ -768,7 +831,11 @@ func c18CheckClosureBuilder(k *eng.Check, fn *ssa.Function) {
 		return ok && eng.Origin(call.Call.Args[0]) == parentsP
 	}, "0", true)
 	exits := eng.SuccessExits(fn)
-	k.OnlyAfter("closure-flushed", fn, "a success exit is reached only after Flush returned nil, or on the no-parents edge", exits, 2, eng.UnionOf(k.OkCalls(fn, "c18flush", c18mFlush), noParents))
+	minExits := 2
+	if eng.Name(fn) != c18WriteFb {
+		minExits = 1 // a merging phase: the no-parents exit stays with the caller
+	}
+	k.OnlyAfter("closure-flushed", fn, "a success exit is reached only after Flush returned nil, or on the no-parents edge", exits, minExits, eng.UnionOf(k.OkCalls(fn, "c18flush", c18mFlush), noParents))
 	// the value returned on a success exit reachable without the no-parents edge derives from Flush
 	for in := range exits.I {
 		ret, ok := in.(*ssa.Return)
@@ -1067,4 +1134,54 @@ func c18uReturnedSlice(h *ssa.Function, idx int) *ssa.MakeSlice {
 		}
 	}
 	return out
+}
+
+// c18CheckClosureLoadsInPhase: merge is the phase that opens the editor on closures[0] of its parameter csP.  At its
+// single call site the argument for csP is result j of a loading phase whose every non-nil return at j is the slice
+// it made; the loading rules are applied there with the loading phase's own parents parameter, and both phases must be
+// handed the same parents value; the merging phase runs only after the loading phase returned nil.
+func c18CheckClosureLoadsInPhase(k *eng.Check, merge *ssa.Function, csP, parentsP *ssa.Parameter) {
+	c := k.C
+	name := eng.Name(merge)
+	callers := eng.CallersOf(c.Funcs("store/datas"), merge)
+	if len(callers) != 1 {
+		k.Unknown("closure-per-parent", name, "the single call site of the merging phase", fmt.Sprintf("%d found", len(callers)))
+		return
+	}
+	site, ok := callers[0].(*ssa.Call)
+	if !ok {
+		k.Unknown("closure-per-parent", name, "the call of the merging phase", "not a plain call")
+		return
+	}
+	top := site.Parent()
+	ci, pi := c18uParamIndex(csP), c18uParamIndex(parentsP)
+	if ci < 0 || pi < 0 || ci >= len(site.Call.Args) || pi >= len(site.Call.Args) {
+		k.Unknown("closure-per-parent", name, "arguments of the merging phase", "parameter positions not found")
+		return
+	}
+	ex, isEx := eng.Origin(site.Call.Args[ci]).(*ssa.Extract)
+	var lc *ssa.Call
+	if isEx {
+		lc, _ = ex.Tuple.(*ssa.Call)
+	}
+	var load *ssa.Function
+	if lc != nil {
+		load = lc.Call.StaticCallee()
+	}
+	if load == nil || len(load.Blocks) == 0 || eng.FuncPkg(load) != eng.FuncPkg(merge) {
+		k.Unknown("closure-per-parent", name, "the phase that loads the parents' closures", "the closures argument is not a result of a same-package call")
+		return
+	}
+	k.FuncsSeen[load] = true
+	ms := c18uReturnedSlice(load, ex.Index)
+	lp := c18uParamsOfType(load, "[]*gen/fb/serial.Commit")
+	if ms == nil || len(lp) != 1 {
+		k.Unknown("closure-per-parent", eng.Name(load), "the closures slice the loading phase makes and its parents parameter", "not found")
+		return
+	}
+	lpi := c18uParamIndex(lp[0])
+	same := lpi >= 0 && lpi < len(lc.Call.Args) && eng.Origin(lc.Call.Args[lpi]) == eng.Origin(site.Call.Args[pi])
+	k.Require("closure-per-parent", eng.Name(top)+"#same-parents", "the loading phase and the merging phase are handed the same parents", same, c.InstrPos(site), "the two phases work on different parent lists")
+	k.OnlyAfter("closure-per-parent", top, "the merging phase runs only after the loading phase returned nil", eng.NewSet().AddI(site), 1, eng.OkCut(lc))
+	c18CheckClosureLoads(k, load, ms, lp[0])
 }
